@@ -77,6 +77,9 @@ def warm_up():
     import warnings
 
     warnings.filterwarnings("ignore")
+    from . import world
+
+    world.install_entropy_seam()
     _WARM = True
 
 
